@@ -162,19 +162,21 @@ PROPS["C13"] = {
 
 PROPS["C09"] = {
     "level": "model_checking",
-    "level_text": "The filter decision procedure is decided as one solver query over all criteria: extended header present/absent, every message "
-                  "type and level (incl. Invalid(0..255)), every minimum level number, each id set absent or present-and-empty, header ECU id "
-                  "present/absent, arbitrary i64 id counts; the oracle is the decision table of the property. Conversions DltFilterConfig -> "
-                  "ProcessedDltFilterConfig (owned and borrowed) are decided for all Option<u8> levels and all 8 presence combinations. "
-                  "Integration (marker carries the payload length, remainder unchanged by the filter) is decided in C04's filter-mode harnesses.",
-    "level_note": "Membership in NON-EMPTY id sets is not decided: symbolic execution of hashbrown (one concrete lookup) does not finish and Kani "
-                  "rejects a stub for the generic HashSet::contains. With empty sets every id is 'not in the allowed set', which exercises each "
-                  "criterion's drop branch and the set <-> criterion pairing, but not the 'id is allowed' branch and not which id is looked up.",
+    "level_text": "The filter decision procedure is decided as solver queries over all criteria: extended header present/absent, every message "
+                  "type and level (incl. Invalid(0..255)), every minimum level number, header ECU id present/absent, arbitrary i64 id counts, and "
+                  "each id set absent, empty, or one of 7 subsets of {the message's application id, its context id, its ECU id, a foreign id} (one criterion varied at a time, the others absent or satisfied) - so "
+                  "both outcomes of every membership test and lookups of the wrong id in the wrong set are covered; the oracle is the decision table "
+                  "of the property. Conversions DltFilterConfig -> ProcessedDltFilterConfig (owned and borrowed) are decided for all Option<u8> levels, "
+                  "all 8 presence combinations, and non-empty lists with duplicates. Integration (marker carries the payload length, remainder "
+                  "unchanged by the filter, also behind junk) is decided in C04's filter-mode harnesses and c06_junk_3_filtered_out.",
+    "level_note": "The id sets are MODELLED: feature verif_hooks swaps std's HashSet<String> inside ProcessedDltFilterConfig for a vector-backed set with the "
+                  "same contains / len / from_iter contract (symbolic execution of hashbrown does not finish and Kani rejects a stub for the generic "
+                  "HashSet::contains). filtered_out, skip_with_level, u8_to_log_level and the conversions are the real code; std's HashSet is trusted base.",
     "functions": ["parse::filtered_out", "ExtendedHeader::skip_with_level", "ProcessedDltFilterConfig::from(DltFilterConfig)",
                   "ProcessedDltFilterConfig::from(&DltFilterConfig)", "dlt::u8_to_log_level"],
-    "bounds": "id sets absent or empty; ids empty strings",
-    "outside": "non-empty id sets (hash lookups), i.e. the 'id is in the allowed set' outcome",
-    "assumptions": COMMON_ASSUME + ["RandomState::new replaced by fixed keys (no OS randomness under Kani)",
+    "bounds": "id sets: subsets of 4 literal ids; ids literal strings",
+    "outside": "std's HashSet (modelled); id strings other than the literals",
+    "assumptions": COMMON_ASSUME + ["std::collections::HashSet<String> inside ProcessedDltFilterConfig replaced by a vector-backed model (hook in src/filtering.rs, feature verif_hooks)",
                                     "minimum levels built directly as LogLevel::Invalid(_) are outside the configuration space (only absence of panics is checked)"],
     "trusted_base": ["std HashSet lookup", "std FromIterator for HashSet"],
     "harnesses": [
@@ -182,6 +184,10 @@ PROPS["C09"] = {
         H("c09::c09_config_conversion_owned", timeout=600, what="owned conversion, all Option<u8> levels, 8 presence combinations"),
         H("c09::c09_config_conversion_borrowed", timeout=600, what="borrowed conversion, all Option<u8> levels, 8 presence combinations"),
         H("c09::c09_filtered_out_decision_table", timeout=900, what="decision table: criteria absent / present-with-empty-set, all types, levels, counts"),
+        H("c09::c09_filtered_out_membership_app", timeout=900, what="decision table with non-empty id sets, application-id criterion over 7 subsets of {message's app id, context id, ECU id, foreign id}"),
+        H("c09::c09_filtered_out_membership_ctx", timeout=900, what="same, context-id criterion"),
+        H("c09::c09_filtered_out_membership_ecu", timeout=900, what="same, ECU-id criterion"),
+        H("c09::c09_config_conversion_contents", timeout=600, what="conversions with non-empty id lists: the sets hold exactly the listed ids"),
     ],
 }
 
@@ -304,15 +310,17 @@ PROPS["C07"] = {
 PROPS["C15"] = {
     "level": "model_checking",
     "level_text": 'Message::new is decided per payload kind (non-verbose, control, verbose, network trace) x optional fields for all data: recorded payload length == reference payload size, byte_len == headers + payload, verbose flag and argument count as the payload kind requires, add_storage_header(Some(ts)) only adds the given time and the header ECU id (or the default id); Argument::valid is decided for every (bool/f32/f64 kind x 15 value variants); Argument::len == serialised length for every layout and both byte orders (gen_args::w_arg_*); Message::byte_len == length of Message::as_bytes without storage header for whole messages (c02w_msg_*, gen_args::wm_arg_*).',
-    "level_note": "'parses back to an equal message' composes with P(shape) of C01 and W(shape) of C02; add_storage_header(None) reads the system clock (FFI): outside. Message::new with a VERBOSE payload does not finish (15 min for one u16 argument): the argument vector sits inside the PayloadContent enum, whose payload data loses its concrete values when the configuration is moved into the constructor, so the writer loop runs over a symbolic number of arguments; for verbose payloads only the per-argument equation len == serialised length is decided (w_arg_*).",
+    "level_note": "add_storage_header(None) reads the system clock (FFI): outside. 'parses back to an equal message' is decided in one query per configuration shape (c15_back_*: Message::new -> as_bytes -> dlt_message) for non-verbose, control, network-trace, zero-argument and one-bool verbose configurations, and composes with RT / P(shape) of C01 for the other argument layouts.",
     "functions": ['Message::new', 'Message::byte_len', 'Message::add_storage_header', 'StandardHeader::overall_length', 'PayloadContent::{is_verbose, arg_count, as_bytes}', 'Argument::valid', 'Argument::len'],
-    "bounds": '7 configuration shapes, <= 2 arguments / slices',
+    "bounds": '11 configuration shapes, <= 2 arguments / slices',
     "outside": 'configurations outside the catalogue; payloads > 64 KiB',
     "assumptions": COMMON_ASSUME + ['ids, names, units and string contents are literals in whole-message harnesses (whether a byte is NUL is control for the parser); arbitrary contents are decided in C19 / c02d'],
     "trusted_base": [],
     "harnesses": [H("c15::" + n, "quick", 900) for n in ["c15_new_nonverbose_noext", "c15_new_nonverbose_ext_be", "c15_new_control",
                   "c15_new_nettrace_le", "c15_new_nettrace_be", "c15_new_verbose_empty", "c15_new_nettrace_empty", "c15_valid_rejects_mismatched_values"]]
-                 + [H("c15::" + n, "thorough", 1800, what="Message::new -> as_bytes -> dlt_message returns the configured message (one query)") for n in
+                 + [H("c15::" + n, "quick", 900) for n in ["c15_new_verbose_u16", "c15_new_verbose_string"]]
+                 + [H("c15::c15_new_verbose_two_args", "thorough", 3600, mem_gb=30)]
+                 + [H("c15::" + n, "quick", 900, what="Message::new -> as_bytes -> dlt_message returns the configured message (one query)") for n in
                     ["c15_back_nonverbose_noext", "c15_back_control", "c15_back_nettrace_be", "c15_back_nettrace_empty", "c15_back_verbose_empty", "c15_back_verbose_bool"]]
                  + [H(e["name"], e["tier"], 900, what="Argument::len == serialised length (and bytes == reference)") for e in _cat["w_arg"]]
                  + [H("c02w::" + n, "quick", 900, what="byte_len == length of Message::as_bytes without storage header (whole message)") for n in _wmsg_q]
